@@ -21,11 +21,14 @@ def main():
         mod = importlib.import_module(a.prop.lower())
         exe = getattr(mod, 'DRIVER', f'drv_{a.prop}')
         targets = getattr(mod, 'LEAN_TARGETS', None) or [f'NasdaqModel.Props.{a.prop}', exe]
-        if os.path.exists(os.path.join(common.LEAN_DIR, 'NasdaqModel', 'Witness', f'{a.prop}.lean')):
-            targets.append(f'NasdaqModel.Witness.{a.prop}')
+        for _sub, m, _path in ctx.lean.modules_of(a.prop):      # every theorem module of the property (Props/Cxx*.lean, Witness/Cxx*.lean)
+            if m not in targets:
+                targets.append(m)
         ctx.lean.build(targets)
         if ctx.lean.build_ok:
             ctx.lean.run_audit(a.prop)
+            if a.tier == 'thorough' and not a.replay:
+                ctx.lean.run_leanchecker(a.prop)
         ctx.driver = common.Driver(exe)
         common.use_repo()
         try:
